@@ -111,6 +111,10 @@ def run(ctx):
                 if got[0] != 'ok' or bool(got[1]) != (a in bound):
                     q(feats, 'contains-definition', {'input': text, 'name': a, 'expected': a in bound,
                                                     'observed': repr(got[1])})
+        elif type(h).__name__ == 'HplPredicateExpression' and S.hpl_has_this(cond) and not any(
+                type(x).__name__ == 'HplFieldAccess' and type(x.message).__name__ == 'HplThisMessage' for x in S.E._walk(cond)):
+            # the current message occurs only bare (roll(<this>), after a replacement): "own field" is left open
+            ctx.skip('bare-this-only')
         elif type(h).__name__ == 'HplPredicateExpression':
             got = hplapi.outcome(h.check_some_self_references)
             nq += 1
@@ -172,6 +176,26 @@ def run(ctx):
             ctx.sample({'input': text[:200], 'external_references': sorted(S.hpl_free_vars(h.condition if as_pred else h)),
                         'reference_slots': [f'{p}.{s}/{k}' for p, s, k in slots][:8]})
         judge_expr(h, e, text, feats, as_pred)
+        # history: the queries must also be exact on trees derived from an already queried tree
+        if n % 2 == 0:
+            from hpl import rewrite as RW
+            names = sorted(S.hpl_all_var_names(h.condition if as_pred else h) - S.hpl_bound_names(h.condition if as_pred else h))
+            derivations = [('replace_this_with_var', lambda: RW.replace_this_with_var(h, 'Qd'))]
+            if names:
+                derivations.append(('replace_var_with_this', lambda: RW.replace_var_with_this(h, names[0])))
+                if not as_pred:
+                    from hpl.ast import HplVarReference
+                    derivations.append(('replace_var_reference', lambda: h.replace_var_reference(names[0], HplVarReference('@Zq'))))
+            derivations.append(('simplify', lambda: RW.simplify(h)))
+            for dname, thunk in derivations:
+                od = hplapi.outcome(thunk)
+                if od[0] != 'ok' or od[1] is h:
+                    continue
+                d = od[1]
+                if getattr(d, 'is_predicate', False) and getattr(d, 'is_vacuous', False):
+                    continue
+                ctx.count('derived_trees_judged')
+                judge_expr(d, e, f'{dname}({text})', feats | {'api:' + dname}, bool(getattr(d, 'is_predicate', False)))
 
     # events, properties, specifications
     pool = []
